@@ -283,8 +283,22 @@ def impl(case):
             if (len(case["P"]) + len(names)) % 2 == 1:
                 # a dict keyed by topology name: its INSERTION ORDER is not part of the interface
                 qd = {k: qd[k] for k in reversed(list(qd))}
+            shared["qd"] = qd
             return _dobs(JointDegreeFromExcess.get_joint_degree_distribution(qd, list(names)))
-        return {"mean": mean, "fwd": fwd, "inv": _guard(rt), "P_after": _dobs(P)}
+        shared = {}
+        inv = _guard(rt)
+        out = {"mean": mean, "fwd": fwd, "inv": inv, "P_after": _dobs(P)}
+        # history: the caller keeps its objects and asks again -- the SAME excess dictionaries inverted a second
+        # time, the SAME P dictionary pushed forward / averaged again (a callee that works in place on its
+        # argument answers the first call correctly and the second one wrongly)
+        if "qd" in shared and not core.is_exc(inv):
+            out["inv2"] = _guard(lambda: _dobs(JointDegreeFromExcess.get_joint_degree_distribution(shared["qd"], list(names))))
+        P2 = dict(P)
+        _guard(lambda: JointExcessfromJDD.get_joint_excess_distributions(P2))
+        _guard(lambda: AverageJointDegreeFromJDD.get_average_joint_degrees(P2))
+        out["fwd2"] = _guard(lambda: [_dobs(q) for q in JointExcessfromJDD.get_joint_excess_distributions(P2)])
+        out["mean2"] = _guard(lambda: [_fr(x) for x in AverageJointDegreeFromJDD.get_average_joint_degrees(P2)])
+        return out
     if kind == "qks":
         from gcmpy.tools.joint_degree_from_excess import JointDegreeFromExcess
         names = case["names"]
@@ -296,7 +310,8 @@ def impl(case):
         single = _guard(lambda: _dobs(JointDegreeFromExcess.invert_single(dict(qd[names[s]]), s)))
         inv = _guard(lambda: _dobs(JointDegreeFromExcess.get_joint_degree_distribution(qd, order)))
         after = [_dobs(qd[names[i]]) for i in range(len(case["qks"]))]
-        return {"single": single, "inv": inv, "qks_after": after}
+        inv2 = _guard(lambda: _dobs(JointDegreeFromExcess.get_joint_degree_distribution(qd, order)))
+        return {"single": single, "inv": inv, "inv2": inv2, "qks_after": after}
     if kind == "rows":
         from gcmpy.names.tools_names import ToolsNames
         from gcmpy.tools.joint_excess_from_ejk import JointExcessFromEjk
@@ -461,20 +476,26 @@ def compare(case, io, mo):
     if kind == "jdd":
         if io["P_after"] != _norm(case["P"]):
             return "the input distribution was modified"
-        if core.is_exc(io["mean"]) or core.is_exc(mo["mean"]):
-            d = None if io["mean"] == mo["mean"] else f"mean: impl {io['mean']} model {mo['mean']}"
-        else:
+        def cmp_mean(im, what):
+            if core.is_exc(im) or core.is_exc(mo["mean"]):
+                return None if im == mo["mean"] else f"{what}: impl {im} model {mo['mean']}"
             d = None
-            if len(io["mean"]) != len(mo["mean"]):
-                d = "mean: length"
-            for x, q in zip(io["mean"], mo["mean"]):
+            if len(im) != len(mo["mean"]):
+                d = f"{what}: length"
+            for x, q in zip(im, mo["mean"]):
                 if not core.close(Fraction(x[0], x[1]), q):
-                    d = f"mean: impl {x} model {q}"
-        return d or _cmp_ds(io["fwd"], mo["fwd"], "forward") or _cmp_inv(io["inv"], mo["inv"], "inverse")
+                    d = f"{what}: impl {x} model {q}"
+            return d
+        return (cmp_mean(io["mean"], "mean") or _cmp_ds(io["fwd"], mo["fwd"], "forward")
+                or _cmp_inv(io["inv"], mo["inv"], "inverse")
+                or ("inv2" in io and _cmp_inv(io["inv2"], mo["inv"], "inverse (second call on the same excess dictionaries)"))
+                or cmp_mean(io["mean2"], "mean (again on the same P dictionary)")
+                or _cmp_ds(io["fwd2"], mo["fwd"], "forward (again on the same P dictionary)") or None)
     if kind == "qks":
         if io["qks_after"] != [_norm(q) for q in case["qks"]]:
             return "the input excess distributions were modified"
-        return _cmp_d(io["single"], mo["single"], "invert_single") or _cmp_inv(io["inv"], mo["inv"], "inversion")
+        return (_cmp_d(io["single"], mo["single"], "invert_single") or _cmp_inv(io["inv"], mo["inv"], "inversion")
+                or _cmp_inv(io["inv2"], mo["inv"], "inversion (second call on the same dictionaries)"))
     if kind == "rows":
         if io["split"] != mo["split"]:
             return f"key halves impl {io['split']} model {mo['split']}"
@@ -549,6 +570,12 @@ def _plan(case, io):
             plan.append(("forward", [0, EPS, case["P"], io["fwd"]], io["fwd"]))
         if _inv_hyp(case):
             plan.append(("inverse", [2, EPS, case["P"], io["inv"]], io["inv"]))
+            if "inv2" in io:
+                plan.append(("inverse (second call on the same excess dictionaries)", [2, EPS, case["P"], io["inv2"]],
+                             io["inv2"]))
+        plan.append(("mean (again on the same P dictionary)", [1, EPS, case["P"], io["mean2"]], io["mean2"]))
+        if _mean_ok(case):
+            plan.append(("forward (again on the same P dictionary)", [0, EPS, case["P"], io["fwd2"]], io["fwd2"]))
     if kind == "rows":
         for n, ks in io["split"]:
             plan.append(("key halves", [5, EPS, case["ejks"][n], ks], ks))
